@@ -247,7 +247,8 @@ def classify(node, cfg, version, direction, ref):
         return f'upa-missed:{kind}-{"nested" if nested else "direct"}'
     # false alarm: deterministic model refused
     nested_emptiable = any(g is not node and R.nullable(R.Model(g).expr) for g in groups_of(node))
-    if nested_emptiable and M.size(node) <= 7:
+    # (minimal witnesses of this family reach 8-9 particles when the emptiable group sits in a nested choice)
+    if nested_emptiable and M.size(node) <= 9:
         return 'upa-false-alarm:nested-emptiable-group'
     return f'upa-false-alarm:unclassified: {M.text(node)}{K.cfg_text(cfg)}'
 
